@@ -87,6 +87,17 @@ void quant_states(bool quick, const StateCb& cb, MakeFn mk, const std::vector<in
       o.sk.merge(other);
       cb("k" + str(kc) + "/merged" + str(na[a]) + "+" + str(na[b]), o);
     }
+    // merges across different k (KLL, classic): the result's accuracy is that of the smallest k that contributed an estimating
+    // sketch (KLL keeps it as min_k next to k; classic quantiles adopts the smaller k), in both directions
+    if (KIND != 1) for (int b = 0; b < 3; ++b) for (int dir = 0; dir < 2; ++dir) {
+      const int nb[] = {3, 3 * k + 2, 9 * k + 1}; Sched sc(1);
+      const int kbig = kc * 2;
+      QObj<Sk, T, KIND> o(mk(dir ? kc : kbig)); Sk other = mk(dir ? kbig : kc);
+      for (int i = 0; i < 2 * k + 3; ++i) o.sk.update(Gen<T>::make(i * 3));
+      for (int i = 0; i < nb[b]; ++i) other.update(Gen<T>::make(i * 3 + 1));
+      o.sk.merge(other);
+      cb("k" + str(dir ? kc : kbig) + "/merged-other-k" + str(dir ? kbig : kc) + "/" + str(2 * k + 3) + "+" + str(nb[b]), o);
+    }
   }
 }
 
